@@ -279,3 +279,47 @@ Theorem C11_generated_check_digest_is_model :
     = inj_result (c_realm e) hdr (gate Ht Hh Ho Unq hdr e).
 Proof. exact gen_digest_handler_token_eq. Qed.
 Print Assumptions C11_generated_check_digest_is_model.
+
+(* ---- Request.authorization (the parser of the Authorization header)
+   generated from the current request.py / headers.py by
+   harness/py2v_reqfacts.py (gen/ReqFactsGen.v, over lib/Py.v +
+   lib/PyDigest.v + lib/PyReqFacts.v) is the model's [parse_authorization],
+   for every header text [raw] ([hv] is req.__headers; its
+   .get('Authorization', '') is [raw]) on the first use (cache None).  The
+   regex scanner stays the model's primitive: [Scan p s] stands for
+   re.compile(p).findall(s); the pattern text [p] is read from the source
+   (RE_AUTHORIZATION) and must be [re_authorization_text], the pattern the
+   model's [findall] implements.  The UTF-8 decoder of Headers.utf8 is the
+   model's strict [utf8_decode true]. *)
+Require Import PW.lib.PyReqFacts PW.gen.ReqFactsGen PW.proofs.ReqFactsGenEq.
+
+Theorem C11_generated_authorization_is_model :
+  forall (Scan : list Z -> list Z -> list (str * str)) Unq hv raw,
+    (forall s, Scan re_authorization_text s = findall (List.length s) s) ->
+    pdict_get hv (PStr s_Authorization) (PStr []) = Ok (PStr raw) ->
+    gen_authorization Scan Unq (utf8_decode true) PNone hv
+    = Ok (inj_dict (parse_authorization Unq raw)).
+Proof. intros Scan Unq hv raw HS. exact (gen_authorization_eq Scan Unq HS hv raw). Qed.
+Print Assumptions C11_generated_authorization_is_model.
+
+Theorem C11_generated_authorization_pattern_text :
+  re_authorization_text
+  = s2l "(\w+\*?)[=] ?(""[^""]+""|[\w\-\'%]+)".
+Proof. reflexivity. Qed.
+Print Assumptions C11_generated_authorization_pattern_text.
+
+(* req.path as check_credentials compares it ([req_path e] = utf8_fix of
+   PATH_INFO) is SimpleRequest.path generated from the source *)
+Theorem C11_generated_path_is_model :
+  forall ei e,
+    items_get (PStr k_path_info) ei = Some (PStr (r_path_info e)) ->
+    gen_path (utf8_decode true) (PDict ei) = Ok (PStr (req_path e)).
+Proof. intros ei e H. exact (gen_path_digest ei _ H). Qed.
+Print Assumptions C11_generated_path_is_model.
+
+(* ... and it is the path the routing model (C02, model/Routing.v) selects
+   with: the two hand models decode PATH_INFO identically *)
+Theorem C11_generated_path_agrees_with_routing :
+  forall e, req_path e = PW.model.Routing.req_path (r_path_info e).
+Proof. intros e. symmetry. apply req_path_models_agree. Qed.
+Print Assumptions C11_generated_path_agrees_with_routing.
